@@ -118,6 +118,14 @@ def storage_created_once(ctx):
              isinstance(n.ctx, ast.Store) and
              isinstance(n.value, ast.Attribute)}
     if len(attrs) != 1:
+        # through a local name (`props = instance._dbusProperties`): ask
+        # the interpreter what is subscripted
+        inst = ('param', setter.params()[1])
+        attrs = {e[1][2] for p in Interp(prog, exc_edges=False).run(setter)
+                 for e in iter_events(p.trace)
+                 if e[0] == 'setsub' and kind(e[1]) == 'attr' and
+                 e[1][1] == inst}
+    if len(attrs) != 1:
         raise AnalysisError('DBusProperty.__set__: storage attribute not '
                             'recognised (%s)' % sorted(attrs))
     store = next(iter(attrs))
